@@ -175,6 +175,39 @@ def many_zones_and_perms(ctx):
     ctx.sample(sub, {"zones": 1000, "permutations": 720})
 
 
+def zone_dtypes(ctx):
+    """Zone rasters of every integer dtype with the nodata value customary for it (also values outside int16)."""
+    import pandas as pd
+    import xarray as xr
+    zm = _zonal()
+    sub = "zone_raster_dtypes"
+    vals = np.array([[5, ND, 7, 2], [1, 1, ND, 30]], dtype="int16").reshape(2, 2, 2)
+    time = pd.date_range("2000-01-01", periods=2, freq="D")
+    for zdt, znd in (("uint8", 255), ("int16", -1), ("uint16", 65535), ("int32", 2147483647), ("int32", -2147483648), ("int64", -9999), ("uint32", 4294967295)):
+        for za in itertools.product([0, 1, 2, znd], repeat=4):
+            zones = np.array(za).astype(zdt)
+            values = vals.reshape(2, 4).astype(np.float64)
+            mean, cnt = reference(values, np.where(np.array(za) == znd, 10 ** 9, np.array(za)), 3, False)
+            for backend in ("numpy", "dask"):
+                da = xr.DataArray(vals, dims=("time", "y", "x"), coords={"time": time}, attrs={"nodata": ND})
+                if backend == "dask":
+                    da = da.chunk({"time": 1})
+                zda = xr.DataArray(zones.reshape(2, 2), dims=("y", "x"), attrs={"nodata": znd})
+                key_fn = lambda t: {"zone_dtype": zdt, "zone_nodata": znd, "zones": list(map(int, za)), "backend": backend}
+                case_fn = lambda t: {"kind": "zdt"}
+                try:
+                    arr = np.asarray(da.hdc.zonal.mean(zda, [0, 1, 2], dtype="float64").values)
+                except Exception as e:
+                    ctx.violation(sub, key_fn(0), case_fn(0), f"zonal.mean with a {zdt} zone raster (nodata {znd}) raised {type(e).__name__}: {e}")
+                    continue
+                ctx.count(sub, evaluations=2, nontrivial=2)
+                check_result(arr, mean, cnt, "float64", ctx, sub, key_fn, case_fn)
+            # the kernel directly
+            res = zm.do_mean(vals, zones.reshape(2, 2), 3, ND, znd, np.float64)
+            check_result(res, mean, cnt, "float64", ctx, sub, lambda t: {"zone_dtype": zdt, "zone_nodata": znd, "zones": list(map(int, za)), "backend": "kernel"}, lambda t: {"kind": "zdt"})
+    ctx.sample(sub, {"zone_dtypes": ["uint8/255", "int16/-1", "uint16/65535", "int32/2147483647", "int32/-2147483648", "int64/-9999", "uint32/4294967295"]})
+
+
 def accessor(ctx):
     import pandas as pd
     import xarray as xr
@@ -238,6 +271,7 @@ def run(ctx):
     ctx.note("max_pixels_int", maxP)
     large_zones(ctx)
     many_zones_and_perms(ctx)
+    zone_dtypes(ctx)
     accessor(ctx)
 
 
@@ -255,6 +289,8 @@ def replay(sub, case, p):
         check_result(res, mean, cnt, case["dtype"], p, sub, lambda t: {}, lambda t: case)
     elif case["kind"] == "large":
         large_zones(p)
+    elif case["kind"] == "zdt":
+        zone_dtypes(p)
     elif case["kind"] == "perm":
         many_zones_and_perms(p)
     else:
